@@ -201,6 +201,10 @@ def run(prog, rep, tier):
     for did in bad:
         rep.fail('O4-effects', 'ext:' + did, '-', 'external callee with a clock/random/env/IO/hash-order effect (or unknown crate) reachable from the decode entries: ' + did)
     rep.floor('external callees classified', len(ext), 20)
+    # 'decoding the same bytes twice gives equal results': the derived PartialEq compares floats, so a NaN anywhere in a
+    # Message makes it unequal to itself - C08's finiteness rule is a clause of this property too
+    from props import c08
+    c08.run(prog, util.Prefixed(rep, 'O5-equal-results/', only=('R2',)), tier, only='R2')
     rep.extra['functions_analysed'] = len(fns)
     rep.extra['external_callees'] = len(ext)
     rep.extra['df_variant_ids'] = {str(k): v for k, v in sorted(idmap.items())}
